@@ -264,6 +264,41 @@ theorem C28_unresolvable_computed (files : List FileSpec) (ans : Nat → Nat →
   obtain ⟨pre, post, r1, r2, hfs, hrefs, hp, _⟩ := hfirst
   exact giveUpRound_eq files ans fuel K hK hg ⟨f, by rw [hfs]; simp, r, by rw [hrefs]; simp, hp⟩
 
+/-- `Offending` with the strong clause for "unresolvable": the loop gave up after a round `K`
+and `r` (in `f`) is the first reference in load order postponed in all rounds `0 … K` -/
+def OffendingStrong (files : List FileSpec) (ans : Nat → Nat → Answer) (kind : Kind) (f : FileSpec)
+    (r : RefSpec) : Prop :=
+  (kind = .unknown ∧ ∃ k, ans k r.id = .unknown ∧ ∀ j < k, ans j r.id = .postponed) ∨
+  (kind = .notUnique ∧ ∃ k root, ans k r.id = .notUnique root ∧ ∀ j < k, ans j r.id = .postponed) ∨
+  (kind = .unresolvable ∧ ∃ K, GaveUpAt files ans K ∧ FirstUnresolvable files ans K f r)
+
+/-- the strong clause implies the old one -/
+theorem OffendingStrong.offending {files : List FileSpec} {ans : Nat → Nat → Answer} {kind : Kind}
+    {f : FileSpec} {r : RefSpec} (h : OffendingStrong files ans kind f r) : Offending ans kind r := by
+  rcases h with h | h | ⟨hk, K, _, _, _, _, _, _, _, hpt, _⟩
+  · exact Or.inl h
+  · exact Or.inr (Or.inl h)
+  · exact Or.inr (Or.inr ⟨hk, K, hpt K (Nat.le_refl _)⟩)
+
+/-- **Reference-resolution errors, strong form** (generalises `C28_ref`, which follows by
+`OffendingStrong.offending`): same statement, but for "unresolvable" the located reference
+is the first one in load order that is postponed through the round after which the loop gave up. -/
+theorem C28_ref_strong (files : List FileSpec) (ans : Nat → Nat → Answer) (fuel : Nat) (e : Err)
+    (hpos : ∀ f ∈ files, ∀ r ∈ f.refs, r.pos ≤ f.text.length)
+    (h : run files ans fuel = .err e) (hk : e.kind ≠ .syntax) :
+    ∃ f ∈ files, ∃ r ∈ f.refs, PointsAt e f r.pos ∧ OffendingStrong files ans e.kind f r := by
+  by_cases hu : e.kind = .unresolvable
+  · obtain ⟨K, f, r, _, hg, hfirst, hpt⟩ := C28_unresolvable_first files ans fuel e hpos h hu
+    have hfirst' := hfirst
+    obtain ⟨pre, post, r1, r2, hfs, hrefs, _⟩ := hfirst'
+    exact ⟨f, by rw [hfs]; simp, r, by rw [hrefs]; simp, hpt, Or.inr (Or.inr ⟨hu, K, hg, hfirst⟩)⟩
+  · obtain ⟨f, hf, r, hr, hpt, hoff⟩ := C28_ref files ans fuel e hpos h hk
+    refine ⟨f, hf, r, hr, hpt, ?_⟩
+    rcases hoff with h1 | h1 | ⟨h1, _⟩
+    · exact Or.inl h1
+    · exact Or.inr (Or.inl h1)
+    · exact absurd h1 hu
+
 /-- the Boolean functions of the executable specification decide the propositions used above -/
 theorem C28_spec_reflects (files : List FileSpec) (ans : Nat → Nat → Answer) (K : Nat) :
     (gaveUpAtB files ans K = true ↔ GaveUpAt files ans K) ∧
